@@ -141,6 +141,10 @@ type prfCase struct {
 	cfg   string
 	big   bool // requests far beyond max are safe (no allocation of the requested size)
 	hLen  int
+	// scribble (optional) is run once after the third evaluation: the caller overwrites slices it obtained from the
+	// key's ACCESSORS (copies by contract). A PRF whose later outputs change has handed out its own state.
+	scribble func()
+	nOne     int
 }
 
 func (c *prfCase) inputs(n int) [][]byte {
@@ -153,6 +157,9 @@ func (c *prfCase) inputs(n int) [][]byte {
 // one checks ComputePRF(in, n) against want[:n]; returns false after a failure.
 func (c *prfCase) one(in, want []byte, n int) bool {
 	c.x.Eval(1)
+	if c.nOne++; c.nOne == 4 && c.scribble != nil {
+		c.scribble()
+	}
 	var out []byte
 	var err error
 	buf := bytes.Clone(in)
@@ -285,6 +292,7 @@ func hmacSection(x *h.X) {
 	kb := ref.KeyBytes(fmt.Sprintf("hmacprf-%s-%d", hash, ksize), ksize)
 	cfg := fmt.Sprintf("HMAC-PRF %s key=%d via %s", hash, ksize, path)
 	var p prf.PRF
+	var scribble func()
 	if path == pathSubtle {
 		pp, err := prfsubtle.NewHMACPRF(hash, bytes.Clone(kb))
 		if err != nil {
@@ -311,10 +319,16 @@ func hmacSection(x *h.X) {
 			x.Fail("construct", "%s: %v", cfg, err)
 			return
 		}
+		scribble = func() {
+			b := k.KeyBytes().Data(insecuresecretdataaccess.Token{})
+			for i := range b {
+				b[i] ^= 0xA5
+			}
+		}
 	}
 	x.NonTrivial()
 	x.Outcome("hmacprf/" + hash)
-	c := &prfCase{x: x, p: p, max: digest[hash], hLen: digest[hash], cfg: cfg, big: true,
+	c := &prfCase{x: x, p: p, max: digest[hash], hLen: digest[hash], cfg: cfg, big: true, scribble: scribble,
 		full: func(in []byte) []byte { return ref.HMAC(hash, kb, in) }}
 	maxIn := 2*blockSize[hash] + 4
 	if x.Thorough() {
@@ -335,6 +349,7 @@ func cmacSection(x *h.X) {
 	kb := cmacKeys(ksize)[ki]
 	cfg := fmt.Sprintf("AES-CMAC-PRF key=%d(msb %02b) via %s", ksize, ki, path)
 	var p prf.PRF
+	var scribble func()
 	if path == pathSubtle {
 		pp, err := prfsubtle.NewAESCMACPRF(bytes.Clone(kb))
 		if err != nil {
@@ -356,10 +371,16 @@ func cmacSection(x *h.X) {
 			x.Fail("construct", "%s: %v", cfg, err)
 			return
 		}
+		scribble = func() {
+			b := k.KeyBytes().Data(insecuresecretdataaccess.Token{})
+			for i := range b {
+				b[i] ^= 0xA5
+			}
+		}
 	}
 	x.NonTrivial()
 	x.Outcome(fmt.Sprintf("cmacprf/%d/msb%02b", ksize, ki))
-	c := &prfCase{x: x, p: p, max: 16, hLen: 16, cfg: cfg, big: true,
+	c := &prfCase{x: x, p: p, max: 16, hLen: 16, cfg: cfg, big: true, scribble: scribble,
 		full: func(in []byte) []byte { return ref.CMAC(kb, in) }}
 	// every input length over many AES blocks: strided processing of leading blocks shows only for length classes
 	maxIn := 330
@@ -426,6 +447,7 @@ func hkdfSection(x *h.X) {
 	kb := ref.KeyBytes(fmt.Sprintf("hkdfprf-%s-%d", hash, ksize), ksize)
 	cfg := fmt.Sprintf("HKDF-PRF %s key=%d salt=%s via %s", hash, ksize, saltNames[si], path)
 	var p prf.PRF
+	var scribble func()
 	if path == pathSubtle {
 		var s []byte
 		if salt != nil {
@@ -460,10 +482,18 @@ func hkdfSection(x *h.X) {
 			x.Fail("construct", "%s: %v", cfg, err)
 			return
 		}
+		scribble = func() {
+			// increments, not XOR: two results aliasing ONE internal array must not cancel out
+			for _, b := range [][]byte{params.Salt(), k.Parameters().(*hkdfprf.Parameters).Salt(), k.KeyBytes().Data(insecuresecretdataaccess.Token{})} {
+				for i := range b {
+					b[i] += 0x35
+				}
+			}
+		}
 	}
 	x.NonTrivial()
 	hl := digest[hash]
-	c := &prfCase{x: x, p: p, max: 255 * hl, hLen: hl, cfg: cfg, big: false,
+	c := &prfCase{x: x, p: p, max: 255 * hl, hLen: hl, cfg: cfg, big: false, scribble: scribble,
 		full:  func(in []byte) []byte { return ref.HKDF(hash, kb, salt, in, 255*hl) },
 		fullN: func(in []byte, n int) []byte { return ref.HKDF(hash, kb, salt, in, n) }}
 	if mode == 0 {
